@@ -4,6 +4,7 @@ usage: python -m harness.gen_driver <outdir> <module> <template> <config.json>
 prints one JSON line: {"ok":..., "tree":..., "stdout_on_import":..., "bound":..., "error":...}"""
 import contextlib
 import importlib
+import importlib.util
 import io
 import json
 import logging
@@ -24,7 +25,6 @@ def main():
             if modname in sys.stdlib_module_names or modname in sys.modules:
                 # a machine called "Token" generates token.py: importing it BY NAME would return the standard library's
                 # module of that name - load the generated file itself, under an alias
-                import importlib.util
                 spec = importlib.util.spec_from_file_location("generated_" + modname, os.path.join(outdir, modname + ".py"))
                 mod = importlib.util.module_from_spec(spec)
                 sys.modules["generated_" + modname] = mod
